@@ -24,9 +24,10 @@ CONSTANTS MaxDepth, MaxRoutes,     \* levels, own routes per level
 
 L(v) == [k |-> "lit", v |-> v]
 B(k, n) == [k |-> k, v |-> n]
-PatEls(p) == CASE p = "x" -> <<L("x")>> [] p = "yb" -> <<L("y")>> [] p = "v" -> <<B("one", "v")>> [] p = "vb" -> <<B("one", "v")>>
+PatEls(p) == CASE p = "rootb" -> <<>>          \* the embedded application's ROOT route "/": under a prefix it is the branch "/p/"
+               [] p = "x" -> <<L("x")>> [] p = "yb" -> <<L("y")>> [] p = "v" -> <<B("one", "v")>> [] p = "vb" -> <<B("one", "v")>>
                [] p = "xy" -> <<L("x"), L("y")>>
-PatBranch(p) == p \in {"yb", "vb"}
+PatBranch(p) == p \in {"yb", "vb", "rootb"}
 PrefixEls(p) == CASE p = "p" -> <<L("p")>> [] p = "pq" -> <<L("p"), L("q")>> [] p = "root" -> <<>> [] p = "x" -> <<L("x")>>
 
 RouteDecl == [pat : PatIds, rk : RenderKinds, mws : MwLists]
